@@ -202,3 +202,20 @@ _add(
          "the map by contraction with the weight; the lateral mask is asserted after every mutating operation.",
     technique="runtime monitoring: reference-operator oracle (F.linear / F.conv2d) + diagonal invariant on the real connection classes",
 )
+
+_add(
+    "C06",
+    rule="4 connection types x 4 synapse types x dt {1,0.5,1.3} x maximum delay {1,3,5} steps x tolerance {0,1e-3} x "
+         "interpolation {previous, nearest} x batch 1-3 x float64/float32, delay tensors {all zero, homogeneous, "
+         "heterogeneous on-grid (k*dt), mixed on/off grid}, histories of 3K+10 events with random spikes (and injected "
+         "currents for delta-plus), delays re-assigned mid-run and clear() mid-run; after every step the delayed "
+         "output, syncurrent and synspike are compared with the undelayed twin's logged state shifted per synapse. "
+         "One evaluation = one step; distinct = (connection, synapse, dt, K, tolerance, delay mode, interpolation, "
+         "dtype, batch, bias, start-up/steady) abstractions.",
+    required=["delayed_steps_checked", "zero_delay_steps", "delay_reassignments", "clears"],
+    floor={"quick": 150, "thorough": 600},
+    text="Held on every history explored: a real delayed connection and an undelayed twin with identical parameters are "
+         "stepped on the same inputs; the delayed output and the delay-offset views must equal the connection's map of "
+         "the twin's logged per-synapse state taken d/dt steps earlier (zero before the start or the last clear).",
+    technique="runtime monitoring: relational (2-safety) monitor, delayed connection vs. shifted log of an undelayed twin",
+)
